@@ -779,9 +779,9 @@ func checkCompileDeterminism(c *core.Ctx) {
 
 // c13MapRanges: map iterations in the compile-path packages, each with the reason why the order cannot reach the emitted bytes.
 var c13MapRanges = map[string]string{
-	"internal/engine/wazevo/ssa.(builder).Init":              "resets a flag on every element: the result does not depend on the order",
-	"internal/engine/wazevo/ssa.(builder).Signatures":        "collects the values and sorts them by ID before returning (sort.Slice verified in the same function)",
-	"internal/engine/wazevo/ssa.(builder).usedSignatures":    "collects the values and sorts them by ID before returning (sort.Slice verified in the same function)",
+	"internal/engine/wazevo/ssa.(builder).Init":                "resets a flag on every element: the result does not depend on the order",
+	"internal/engine/wazevo/ssa.(builder).Signatures":          "collects the values and sorts them by ID before returning (sort.Slice verified in the same function)",
+	"internal/engine/wazevo/ssa.(builder).usedSignatures":      "collects the values and sorts them by ID before returning (sort.Slice verified in the same function)",
 	"internal/engine/wazevo/backend/isa/amd64.(machine).Reset": "collects the keys only to delete every one of them: clearing a map is order-insensitive",
 	"internal/engine/wazevo/backend/isa/arm64.(machine).Reset": "collects the keys only to delete every one of them: clearing a map is order-insensitive",
 	"internal/engine/wazevo.sharedFunctionsFinalizer":          "finalizer unmapping every trampoline: not on the compile path, order-insensitive",
